@@ -201,8 +201,8 @@ def main(ctx, cases=None, transforms=None):
                 e = expected([pl.unhex(x) for x in a], r.nA, r.nB, MA, MB)
                 table[sw] = max([abs(x - pl.unhex(y)) for x, y in zip(e, bb)] + [0.0])
             for f_id, sw in ATTRIBUTION:
-                if sw in table and table[sw] <= tol:
-                    fid = f_id
+                if sw in table and table[sw] <= tol and proofs_ok and not corr_bad:
+                    fid = f_id      # (never attributed when model and code disagree: the model's counterfactuals then say nothing about the code)
                     break
             out.append({"case": r.case, "transformed_case": tr.case, "R": R, "t": t, "transformation": label, "request": pl.fmt_case(r.case), "error": d, "allowed": tol,
                         "attributed_to": fid, "counterfactual_defect": table,
